@@ -1,0 +1,3 @@
+// Package verifhook provides named schedule points for the external verification harness.
+// With the build tag "verif" off (the default) Point is an empty function.
+package verifhook
